@@ -1230,6 +1230,9 @@ def _replay_nb(qualname, case, clause, model, seed):
 
 
 UNITS = [ParticipationRatio(), LocalAlignment(), PhaseQuotient(), DivergenceCurl(), Vibrability(), VectorDecompositionSq()]
+# callee contracts of other properties used at call sites: their units are re-verified with this check
+from contracts.common import callee_units as _callee_units   # noqa: E402
+UNITS = UNITS + _callee_units([('C02', None), ('C05', {'read_neighbors'}), ('C13', {'conditional_sq'})], UNITS)
 
 MANIFEST = {
     "text": "Six functions of PyMatterSim/static/vector.py, real ASTs, symbolic particle number N, coordination numbers CN_i, mode number K and wave-vector number Q, d in {2,3}, every clause at an arbitrary symbolic index: participation_ratio = (sum|e|^2)^2/(N sum|e|^4), in [1/N,1] for e != 0 (two Cauchy-Schwarz type facts proved by induction over N), invariant under e -> c e (second symbolic run of the real body); local_vector_alignment_i = mean over the neighbour list of e_i.e_j; phase_quotient = sum e_i.e_j / sum|e_i.e_j| and in [-1,1] (triangle inequality by two nested inductions); divergence_i / curl_i = neighbour averages of D_ij.(u_j-u_i) / D_ij x (u_j-u_i) with D the minimum image of remove_pbc (nested symbolic loops summarised and checked inductively), 2-D returns the divergence only; vibrability_i = sum_l |e_li|^2/omega_l^2 and the saved array is the returned one; vector_decomposition_sq: L_FFT = round8(qhat (qhat.F)), T_FFT = round8(F - L), Sq_L/Sq_T = round8(|L|^2/|T|^2), transform columns kept, L parallel to q, L + T = F, qhat.T = (1-|qhat|^2)(qhat.F), |L|^2+|T|^2-|F|^2 = 2(|qhat|^2-1)|qhat.F|^2 (so S = S_L + S_T whenever |qhat| = 1), averaged frame = group means over equal q, csv = averaged frame; no input array is written. On the unfixed repository vector_decomposition_sq raises for every input (in-place division of the read-only DataFrame.values array, pandas 3): exc-free fails with a failing replay; with design_notes/C15.fix-1.diff every obligation is proved.",
